@@ -28,7 +28,7 @@ def build_real(name, mod, gendir, outdir, repo):
         srcs += [os.path.join(repo, s) for s in getattr(m, 'NATIVE_SOURCES', [])]
     for i, s in enumerate(srcs):
         o = os.path.join(outdir, 'real_%d.o' % i)
-        rc, out = sh(['g++'] + cxxflags(repo) + ['-I', gendir, '-c', s, '-o', o])
+        rc, out = sh(['g++'] + cxxflags(repo) + list(getattr(mod, 'NATIVE_DEFS', [])) + ['-I', gendir, '-c', s, '-o', o])
         if rc != 0: return False, 'g++ failed on %s: %s' % (s, out[-1500:])
         objs.append(o)
     return True, objs
@@ -40,10 +40,10 @@ def cosim(name, mod, gendir, build, repo, seed, iters):
     if not ok: return {'status': 'error', 'reason': objs}
     # slice object with renamed symbols
     wrap = os.path.join(out, 'slice_wrap.c')
-    open(wrap, 'w').write('#include "verif.h"\n#include "vec.h"\n%s#include "%s_types.h"\n%s#define RECURSE(f) f\n#include "%s_slice.c"\n' % (
-        ''.join('#include "%s"\n' % h for h in getattr(mod, 'TYPES_PRELUDE', [])), name, ''.join('#include "%s"\n' % h for h in getattr(mod, 'SLICE_PRELUDE', [])), name))
+    open(wrap, 'w').write('#include "verif.h"\n#include "vec.h"\n%s%s#include "%s_types.h"\n%s#define RECURSE(f) f\n#include "%s_slice.c"\n' % (
+        ''.join('#include "%s"\n' % h for h in getattr(mod, 'TYPES_PRELUDE', [])), getattr(mod, 'NATIVE_SLICE_PRE', ''), name, ''.join('#include "%s"\n' % h for h in getattr(mod, 'SLICE_PRELUDE', [])), name))
     so = os.path.join(out, 'slice.o')
-    defs = [d for d in getattr(mod, 'DEFS', [])]
+    defs = [d for d in getattr(mod, 'DEFS', [])] + list(getattr(mod, 'NATIVE_DEFS', []))
     rc, o = sh(['gcc', '-std=gnu11', '-O1', '-w', '-DVERIF_NATIVE_SLICE', '-I', gendir, '-I', os.path.join(VERIF, 'contracts'), '-I', os.path.join(VERIF, 'stubs')] + defs + ['-c', wrap, '-o', so])
     if rc != 0: return {'status': 'error', 'reason': 'gcc failed on slice: ' + o[-1500:]}
     syms = os.path.join(out, 'syms.txt')
@@ -89,7 +89,7 @@ def replay(job, obligation, gendir, build, repo):
     ok, objs = build_real(unit, mod, gendir, out, repo)
     if not ok: return {'status': 'error', 'detail': objs}
     ho = os.path.join(out, 'harness_%s.o' % job['entry'])
-    defs = [d for d in getattr(mod, 'DEFS', [])]
+    defs = [d for d in job.get('defines', getattr(mod, 'DEFS', []))] + [d for d in getattr(mod, 'NATIVE_DEFS', []) if not any(d.split('=')[0] == x.split('=')[0] for x in job.get('defines', []))]
     rc, o = sh(['gcc', '-std=gnu11', '-O1', '-w', '-ffunction-sections', '-DHARNESS=' + job['entry'], '-I', gendir, '-I', os.path.join(VERIF, 'contracts'), '-I', os.path.join(VERIF, 'stubs')] + defs +
                ['-c', os.path.join(VERIF, job['src']), '-o', ho])
     if rc != 0: return {'status': 'error', 'detail': 'gcc harness: ' + o[-1500:]}
@@ -108,3 +108,46 @@ def replay(job, obligation, gendir, build, repo):
     elif rc not in (0,): res['status'] = 'reproduced' if rc < 0 or rc > 3 else 'not-reproduced'; res['detail'] = 'native run ended with exit %d' % rc
     else: res['status'] = 'not-reproduced'
     return res
+
+
+def build_lib(repo, outdir):
+    """Compile the whole draco library (no tests/tools/plugins) from the working tree into a static archive; used only to replay a
+    violation through the public API. Returns (ok, path or message)."""
+    import glob, concurrent.futures
+    os.makedirs(outdir, exist_ok=True)
+    lib = os.path.join(outdir, 'libdraco_replay.a')
+    srcs = []
+    for f in glob.glob(os.path.join(repo, 'src', 'draco', '**', '*.cc'), recursive=True):
+        rel = os.path.relpath(f, os.path.join(repo, 'src', 'draco'))
+        top = rel.split(os.sep)[0]
+        if f.endswith('_test.cc') or top in ('tools', 'javascript', 'unity', 'maya', 'scene', 'texture', 'material') or 'test_utils' in f or 'test_base' in f: continue
+        if 'gltf' in f or 'scene_io' in f or 'texture_io' in f or 'image_compression' in f: continue
+        srcs.append(f)
+    flags = ['-std=c++11', '-O1', '-w', '-I', os.path.join(repo, 'src'), '-I', os.path.join(VERIF, 'native', 'include')]
+    def cc(f):
+        o = os.path.join(outdir, 'lib_' + re.sub(r'[^A-Za-z0-9]', '_', os.path.relpath(f, repo)) + '.o')
+        rc, out = sh(['g++'] + flags + ['-c', f, '-o', o])
+        return (rc, out, o, f)
+    objs = []
+    with concurrent.futures.ThreadPoolExecutor(max_workers=16) as ex:
+        for rc, out, o, f in ex.map(cc, srcs):
+            if rc != 0: return False, 'g++ failed on %s: %s' % (f, out[-800:])
+            objs.append(o)
+    if os.path.exists(lib): os.remove(lib)
+    rc, out = sh(['ar', 'rcs', lib] + objs)
+    if rc != 0: return False, 'ar: ' + out[-500:]
+    return True, lib
+
+def replay_api(job, build, repo):
+    """Replay through the public API: job['native_api'] = {'src': native/<prog>.cc, 'args': [...]}: exit 0 = property holds on the real code,
+    1 = violated (reproduced)."""
+    spec = job['native_api']
+    out = os.path.join(build, 'native_api')
+    ok, lib = build_lib(repo, out)
+    if not ok: return {'status': 'error', 'detail': lib}
+    exe = os.path.join(out, os.path.basename(spec['src'])[:-3])
+    rc, o = sh(['g++', '-std=c++11', '-O1', '-w', '-I', os.path.join(repo, 'src'), '-I', os.path.join(VERIF, 'native', 'include'), os.path.join(VERIF, spec['src']), lib, '-o', exe])
+    if rc != 0: return {'status': 'error', 'detail': 'g++: ' + o[-1200:]}
+    rc, o = sh([exe] + list(spec.get('args', [])), timeout=300)
+    return {'status': 'reproduced' if rc == 1 else ('not-reproduced' if rc == 0 else 'error'), 'cmd': ' '.join([exe] + list(spec.get('args', []))), 'exit': rc, 'output': o[-3000:],
+            'detail': 'public-API replay program %s' % spec['src']}
